@@ -94,7 +94,40 @@ def run(ctx, tier):
             r2.violations.append(Violation('C10', 'C10.arc', b.path, 'difference', pr, loc=b.loc(0), ordinal=o))
     if m < 1:
         r2.violations.append(Violation('C10', 'C10.arc', 'oxmpl', 'floor', 'no SO(2) interpolation found (floor 1)'))
-    return [r, r2]
+    return [r, r2, _repr(ctx)]
+
+
+def _repr(ctx):
+    """C10.repr - q and -q denote the same rotation: SO(3) interpolation must produce the same rotation whichever
+    representative of either end point it is given, i.e. its four stored components are all even or all odd functions of
+    each end point (sign-symmetry abstract interpretation, oxa/parity.py).  Necessary for "the result lies on a shortest
+    path" for pairs with a negative dot product."""
+    from ..parity import Parity, E, O
+    r3 = RuleResult('C10.repr', 'SO(3) interpolation yields the same rotation for q and -q at either end (sign-symmetry analysis)')
+    m = 0
+    for b in sorted(ctx.lib_bodies(), key=lambda x: x.path):
+        if b.impl_trait != SS or b.name != 'interpolate' or b.kind != 'AssocFn' or 'so3' not in (b.j.get('impl_adt') or '').lower():
+            continue
+        ends = [i for i in range(1, b.arg_count + 1) if b.local_ty(i).endswith('SO3State') and not b.local_ty(i).startswith('&mut ')]
+        for o, i in enumerate(ends):
+            m += 1
+            res = Parity(ctx, ctx.core).analyze(b, {i})
+            outs = {k: v for k, v in res.items() if k[0] == 'out'}
+            vals = set(outs.values())
+            ok = len(outs) >= 4 and (vals == {E} or vals == {O})
+            r3.inst('%s: components as functions of the sign of `%s`: %s' % (b.path, b.local_name(i), {'.'.join(map(str, k[2:])): v for k, v in sorted(outs.items())}),
+                    ok=ok, site=b.loc(0))
+            if not ok:
+                r3.violations.append(Violation(
+                    'C10', 'C10.repr', b.path, 'sign:' + str(b.local_name(i)),
+                    'the interpolated rotation is not shown to be the same when `%s` is replaced by its negation (the same rotation): '
+                    'components %s - on some path the end point is used without being brought onto the hemisphere of the other one, so '
+                    'for a negative dot product the motion takes the long way round' % (
+                        b.local_name(i), {'.'.join(map(str, k[2:])): v for k, v in sorted(outs.items())} or 'none written'),
+                    loc=b.loc(0), ordinal=o))
+    if m < 2:
+        r3.violations.append(Violation('C10', 'C10.repr', 'oxmpl', 'floor', 'only %d (SO(3) interpolation, end point) pairs analysed (floor 2)' % m))
+    return r3
 
 
 def _is_copy_of(ctx, b, local, params):
